@@ -89,6 +89,7 @@ fn main() {
             if std::fs::write(&args[4], text).is_ok() { 0 } else { 2 }
         }
         Some("replay") if args.len() >= 3 => minimize::replay(&args[2]),
+        Some("determinism-proof") => driver::determinism_proof(args.get(2).map(|s| s.as_str()).unwrap_or("40")),
         Some("determinism") if args.len() >= 4 => {
             // prints "seed trace_hash steps violations" per seed; the caller diffs two executions
             let n: u64 = args[3].parse().unwrap_or(10);
